@@ -56,8 +56,9 @@ pub fn defer_sentinel(op: Instruction) -> V {
 
 #[derive(Clone, Debug, PartialEq)]
 pub enum JumpHist {
-    /// pushed with value 0 while the instruction list was not empty at 0 => placeholder candidate
-    Pushed(usize),
+    /// (value pushed, instruction length at that moment): value 0 with a non-empty instruction
+    /// list is a placeholder that a later patch must replace
+    Pushed(usize, usize),
     Patched(usize, usize),
 }
 
@@ -601,7 +602,8 @@ impl<D: Store + Mk> GarnishData for Mon<D> {
         let idx = self.d.get_jump_table_len();
         let r = self.d.push_to_jump_table(i);
         if r.is_ok() && self.jump_log.len() < 200_000 {
-            self.jump_log.push((idx, JumpHist::Pushed(i)));
+            let il = self.d.get_instruction_len();
+            self.jump_log.push((idx, JumpHist::Pushed(i, il)));
         }
         r
     }
